@@ -1,12 +1,270 @@
-/-! Model for property C07 (core-only: no Mathlib import, so the driver links). -/
+import OnetVerif.Model.Util
+/-! Model for property C07: what one server's overlay does with an arbitrary envelope from a peer.
+Every Go pointer a peer can leave nil is an `Option`/a `none`-like constructor here, every
+dereference of the source is a `match` — in `process` (the code as it is now) every such site
+returns an error, in `processOld` (the pinned code before the repairs) the five sites that were
+found return `Out.panic` / leave the lock counter at 1.  Anchors: `overlay.go` `Process` 79-120,
+`TransmitMsg` 129-230, `requestTree` 300-345, `handleRequestTree`/`handleSendTreeMarshal`/
+`handleSendTree`/`handleRequestRoster`/`handleSendRoster`/`handleConfigMessage` 383-560,
+`checkPendingTreeMarshal` 271-292; `tree.go` `MakeTree` 344-381; `treestorage.go` `GetRoster`;
+`treenode.go` `dispatchMsgToProtocol`, `createValueAndVerify`.
+
+The field values are the abstraction classes of the property's quantifier: absent, zero, random,
+ids of trees/rosters the server knows (`K`), has requested but not received (`R`), does not know
+(`U`), tokens of a running and of a finished run.  Core-only. -/
 namespace C07
 
+/-- tree ids: known, requested-not-received, unknown, the zero id -/
+inductive TRef where | K | R | U | Z deriving DecidableEq, Repr
+/-- roster ids: roster of K, roster of R, another roster, the zero id -/
+inductive RoRef where | roK | roR | roX | roZ deriving DecidableEq, Repr
+inductive Slot where | absent | requested | present deriving DecidableEq, Repr
+
+/-- shape of a tree description relative to the roster it names -/
+inductive Shape where
+  | good | emptyChildren | unknownServer
+  deriving DecidableEq, Repr
+
+structure TM where
+  id : TRef
+  ro : RoRef        -- the RosterID field of the description
+  shape : Shape
+  deriving DecidableEq, Repr
+
+/-- a roster as sent by a peer: its ID field and whether its list holds the tree's servers -/
+structure Ro where
+  id : RoRef
+  hasList : Bool
+  deriving DecidableEq, Repr
+
+/-- destination token of a protocol message -/
+inductive Tok where
+  | none                 -- token absent
+  | zero                 -- all-zero token
+  | run                  -- token of the running instance (tree K)
+  | done                 -- token of the finished instance (tree K)
+  | fresh (t : TRef)     -- a new run at our node of tree t
+  | badNode              -- tree K, node id that is not in the tree
+  deriving DecidableEq, Repr
+
+inductive Frm where | none | member | stranger deriving DecidableEq, Repr
+
+inductive Env where
+  | proto (to : Tok) (frm : Frm) (bodyOk : Bool)
+  | reqTree (t : TRef) (v0 : Bool)
+  | respTree (tm : Option TM) (ro : Option Ro)
+  | treeMarshal (tm : TM)
+  | reqRoster (r : RoRef)
+  | sendRoster (ro : Ro)
+  | config (wellTyped : Bool)
+  deriving Repr
+
+inductive Out where
+  | ok | ignored | panic
+  deriving DecidableEq, Repr
+
+structure Srv where
+  slot : TRef → Slot := fun t => if t = .K then .present else if t = .R then .requested else .absent
+  /-- parked protocol messages per tree; the slot of R is `requested` because one message for a
+  fresh run on R is parked -/
+  parked : TRef → Nat := fun t => if t = .R then 1 else 0
+  /-- listed instances: the running one, the fresh one per tree -/
+  run : Bool := false
+  doneMark : Bool := false
+  /-- another instance on tree K that is listed throughout (the harness keeps one for its barriers) -/
+  other : Bool := true
+  doneLive : Bool := false   -- an instance listed under the `done` token (only when it is not marked done)
+  fresh : TRef → Bool := fun _ => false
+  handed : Nat := 0          -- messages handed to an instance
+  delivered : Nat := 0       -- messages that reached a handler
+  pendingTM : List TM := []
+  treeLock : Nat := 0        -- `pendingTreeLock` held
+  replies : Nat := 0         -- tree / roster replies sent to the peer
+
+def treeOf : Tok → TRef
+  | .none => .Z | .zero => .Z | .run => .K | .done => .K | .fresh t => t | .badNode => .K
+
+def upd {α : Type} (f : TRef → α) (t : TRef) (v : α) : TRef → α := fun x => if x = t then v else f x
+
+/-- the roster id a description must name to fit tree t -/
+def rosterOf : TRef → RoRef
+  | .K => .roK | .R => .roR | .U => .roX | .Z => .roZ
+
+/-- `TreeMarshal.MakeTree(ro)`: `none` = error -/
+def makeTree (tm : TM) (ro : Ro) : Bool :=
+  ro.id = tm.ro && tm.shape = .good && ro.hasList
+
+/-- the `transmitMux` region for a message whose tree is present, then the reader goroutine -/
+def deliver (s : Srv) (to : Tok) (frm : Frm) : Out × Srv :=
+  match to with
+  | .none => (.ignored, s)                       -- unreachable: refused before
+  | .done =>
+    if s.doneMark then (.ignored, s)             -- finished instance: dropped
+    else
+      let s1 := { s with doneLive := true, handed := s.handed + 1 }
+      (match frm with
+       | .member => (.ok, { s1 with delivered := s1.delivered + 1 })
+       | _ => (.ignored, s1))
+  | .badNode => (.ignored, s)                    -- "No TreeNode defined in this tree here"
+  | .zero => (.ignored, s)                       -- tree Z is never present
+  | .run =>
+    let s1 := { s with run := true, handed := s.handed + 1 }
+    (match frm with
+     | .member => (.ok, { s1 with delivered := s1.delivered + 1 })
+     | _ => (.ignored, s1))                      -- missing / foreign sender: refused by the instance
+  | .fresh t =>
+    let s1 := { s with fresh := upd s.fresh t true, handed := s.handed + 1 }
+    (match frm with
+     | .member => (.ok, { s1 with delivered := s1.delivered + 1 })
+     | _ => (.ignored, s1))
+
+/-- `RegisterTree` of a received tree: store it and flush what was parked for it (the harness
+parks only `fresh t` messages from a member) -/
+def storeAndFlush (s : Srv) (t : TRef) : Srv :=
+  let n := s.parked t
+  { s with slot := upd s.slot t .present, parked := upd s.parked t 0,
+           fresh := if n = 0 then s.fresh else upd s.fresh t true,
+           handed := s.handed + n, delivered := s.delivered + n }
+
+/-- `handleSendTree` -/
+def sendTree (s : Srv) (tm : Option TM) (ro : Option Ro) : Out × Srv :=
+  match tm with
+  | none => (.ignored, s)
+  | some tm =>
+    if tm.id = .Z then (.ignored, s) else
+    match ro with
+    | none => (.ignored, s)
+    | some ro =>
+      if s.slot tm.id ≠ .requested then (.ignored, s)
+      else if makeTree tm ro then (.ok, storeAndFlush s tm.id)
+      else (.ignored, s)
+
+/-- is a roster with that id known through a listed instance (`handleSendTreeMarshal`'s loop)? -/
+def instanceRoster (s : Srv) (r : RoRef) : Bool :=
+  (r = .roK && (s.other || s.run || s.doneLive || s.fresh .K)) || (r = .roR && s.fresh .R) || (r = .roX && s.fresh .U)
+
+/-- one envelope on the code as it is now -/
+def process (s : Srv) : Env → Out × Srv
+  | .proto to frm bodyOk =>
+    if !bodyOk then (.ignored, s)                                   -- `Unwrap`: undecodable body
+    else if to = .none then (.ignored, s)                           -- no destination token
+    else
+      let t := treeOf to
+      if s.slot t = .present then deliver s to frm
+      else
+        -- `requestTree`: park, re-check, register and ask the peer
+        let s1 := { s with parked := upd s.parked t (s.parked t + 1) }
+        if s1.slot t = .absent then (.ok, { s1 with slot := upd s1.slot t .requested })
+        else (.ok, s1)
+  | .reqTree t _ =>
+    if s.slot t = .present then (.ok, { s with replies := s.replies + 1 }) else (.ignored, s)
+  | .respTree tm ro => sendTree s tm ro
+  | .treeMarshal tm =>
+    if tm.id = .Z then (.ignored, s)
+    else if s.slot tm.id ≠ .requested then (.ignored, s)
+    else if instanceRoster s tm.ro then sendTree s (some tm) (some ⟨tm.ro, true⟩)
+    else (.ok, { s with pendingTM := s.pendingTM ++ [tm] })        -- and asks the peer for the roster
+  | .reqRoster _ => (.ok, { s with replies := s.replies + 1 })     -- the roster, or an empty one
+  | .sendRoster ro =>
+    if ro.id = .roZ then (.ignored, s)
+    else
+      -- `checkPendingTreeMarshal`: lock … unlock on every path
+      let todo := s.pendingTM.filter (fun tm => tm.ro = ro.id)
+      let s' := todo.foldl (fun acc tm =>
+        if acc.slot tm.id = .present then acc
+        else if makeTree tm ro then storeAndFlush acc tm.id else acc) s
+      (.ok, { s' with treeLock := 0 })
+  | .config _ => (.ok, s)
+
+/-- tokens for which the overlay hands the message to an (existing or new) instance -/
+def creates : Tok → Bool
+  | .run => true | .fresh _ => true | _ => false
+
+/-- the pinned code before the repairs: the five crash / lock-leak sites -/
+def processOld (s : Srv) : Env → Out × Srv
+  | .proto to frm bodyOk =>
+    if !bodyOk then (.ignored, s)
+    else if to = .none then (.panic, s)                             -- `onetMsg.To.TreeID`
+    else if frm = .none && s.slot (treeOf to) = .present && creates to then
+      (.panic, s)                                                   -- reader: `onetMsg.From.TreeNodeID`
+    else process s (.proto to frm bodyOk)
+  | .respTree (some tm) (some ro) =>
+    if tm.id ≠ .Z ∧ s.slot tm.id ≠ .absent ∧ ro.id = tm.ro ∧ tm.shape = .emptyChildren then
+      (.panic, s)                                                   -- `tm.Children[0]`
+    else process s (.respTree (some tm) (some ro))
+  | .reqRoster r =>
+    if s.slot .R = .requested ∨ s.slot .U = .requested ∨ s.slot .Z = .requested then
+      (.panic, s)                                                   -- `tree.Roster` of an empty slot
+    else process s (.reqRoster r)
+  | .sendRoster ro =>
+    if ro.id ≠ .roZ ∧ (s.pendingTM.filter (fun tm => tm.ro = ro.id)).isEmpty then
+      (.ok, { s with treeLock := 1 })                               -- returns with the lock held
+    else process s (.sendRoster ro)
+  | e => process s e
+
+def runEnvs (s : Srv) : List Env → Srv
+  | [] => s
+  | e :: es => runEnvs (process s e).2 es
+
 namespace Drv
-/-- line-protocol driver state for C07 -/
-abbrev State := Unit
-def init : State := ()
-/-- one line in (tokens after the property prefix), new state and one line out -/
-def step (s : State) (_toks : List String) : State × String := (s, "bad-op")
+
+structure State where
+  s : Srv := {}
+
+def init : State := {}
+
+def tref : String → Option TRef
+  | "K" => some .K | "R" => some .R | "U" => some .U | "Z" => some .Z | _ => none
+def roref : String → Option RoRef
+  | "roK" => some .roK | "roR" => some .roR | "roX" => some .roX | "roZ" => some .roZ | _ => none
+def shape : String → Option Shape
+  | "good" => some .good | "empty" => some .emptyChildren | "unksrv" => some .unknownServer | _ => none
+def tok : String → Option Tok
+  | "none" => some .none | "zero" => some .zero | "run" => some .run | "done" => some .done
+  | "badnode" => some .badNode
+  | "freshK" => some (.fresh .K) | "freshR" => some (.fresh .R) | "freshU" => some (.fresh .U)
+  | _ => none
+def frm : String → Option Frm
+  | "none" => some .none | "member" => some .member | "stranger" => some .stranger | _ => none
+def bool : String → Option Bool
+  | "1" => some true | "0" => some false | _ => none
+
+def tm? (a b c : String) : Option TM := do
+  let i ← tref a; let r ← roref b; let sh ← shape c
+  pure ⟨i, r, sh⟩
+
+def showSlot : Slot → String
+  | .absent => "absent" | .requested => "requested" | .present => "present"
+
+def obs (o : Out) (x : Srv) : String :=
+  if o = .panic then "panic" else
+  let live := (if x.run then 1 else 0) + (if x.doneLive then 1 else 0) + (if x.fresh .K then 1 else 0) + (if x.fresh .R then 1 else 0) + (if x.fresh .U then 1 else 0)
+  s!"K={showSlot (x.slot .K)} R={showSlot (x.slot .R)} U={showSlot (x.slot .U)} Z={showSlot (x.slot .Z)} parked={x.parked .K + x.parked .R + x.parked .U + x.parked .Z} live={live} handed={x.handed} delivered={x.delivered} replies={x.replies} lock={x.treeLock}"
+
+def parse : List String → Option Env
+  | ["proto", t, f, b] => do pure (.proto (← tok t) (← frm f) (← bool b))
+  | ["reqtree", t, v] => do pure (.reqTree (← tref t) (← bool v))
+  | ["resptree", "-", "-"] => some (.respTree none none)
+  | ["resptree", "-", r, l] => do pure (.respTree none (some ⟨← roref r, ← bool l⟩))
+  | ["resptree", a, b, c, "-"] => do pure (.respTree (some (← tm? a b c)) none)
+  | ["resptree", a, b, c, r, l] => do pure (.respTree (some (← tm? a b c)) (some ⟨← roref r, ← bool l⟩))
+  | ["treemarshal", a, b, c] => do pure (.treeMarshal (← tm? a b c))
+  | ["reqroster", r] => do pure (.reqRoster (← roref r))
+  | ["sendroster", r, l] => do pure (.sendRoster ⟨← roref r, ← bool l⟩)
+  | ["config", w] => do pure (.config (← bool w))
+  | _ => none
+
+/-- `state <idle|midrun|afterdone> <mode>` sets up the server state; every other line is one envelope -/
+def step (st : State) (toks : List String) : State × String :=
+  match toks with
+  | ["state", "idle", _] => ({ s := {} }, "ok")
+  | ["state", "midrun", _] => ({ s := { run := true, handed := 1, delivered := 1 } }, "ok")
+  | ["state", "afterdone", _] => ({ s := { doneMark := true, handed := 1, delivered := 1 } }, "ok")
+  | _ =>
+    match parse toks with
+    | some e => let r := process st.s e; ({ s := r.2 }, obs r.1 r.2)
+    | none => (st, "bad-op")
+
 end Drv
 
 end C07
